@@ -163,6 +163,64 @@ theorem plainRightSp_plainRight {s : Sp} {o : Obj} (h : plainRightSp s = true) (
     cases o <;> simp_all [plainRight]
   · cases s <;> simp [plainRightSp] at h <;> first | (simp [ev] at hev; subst hev; rfl) | (exact absurd h hp)
 
+theorem isNoneLit_eq {y : Sp} (h : isNoneLit y = true) : y = .noneLit := by
+  cases y <;> simp [isNoneLit] at h ⊢
+
+theorem plainSp_not_typing {s : Sp} {o : Obj} (h : plainSp s = true) (hev : ev ptm s = .ok o) :
+    typingObj ptm o = false := by
+  cases s <;> simp [plainSp] at h
+  case builtin k => simp [ev] at hev; subst hev; cases k <;> rfl
+  case bareBuiltin c => simp [ev] at hev; subst hev; cases c <;> rfl
+  case dictBare => simp [ev] at hev; subst hev; rfl
+  case pep585 c x =>
+    simp only [ev] at hev
+    cases hx : ev ptm x with
+    | error e => simp [hx] at hev
+    | ok ox => simp [hx] at hev; subst hev; rfl
+  case dict585 k v =>
+    simp only [ev] at hev
+    cases hk : ev ptm k with
+    | error e => simp [hk] at hev
+    | ok ok' =>
+      cases hv : ev ptm v with
+      | error e => simp [hk, hv] at hev
+      | ok ov => simp [hk, hv] at hev; subst hev; rfl
+
+/-- a right operand of the plain kind is not a `typing` object, and is a plain type or a Field class -/
+theorem plainRightSp_kind {s : Sp} {o : Obj} (h : plainRightSp s = true) (hev : ev ptm s = .ok o) :
+    typingObj ptm o = false ∧ (plainType ptm o || isFclsObj o) = true := by
+  by_cases hp : plainSp s = true
+  · exact ⟨plainSp_not_typing hp hev, by simp [plainSp_plainType hp hev]⟩
+  · cases s <;> simp [plainRightSp] at h <;>
+      first | (simp [ev] at hev; subst hev; exact ⟨rfl, rfl⟩) | (exact absurd h hp)
+
+theorem objEq_noneTy_left {o : Obj} (h : isNoneTy o = false) : objEq .noneTy o = false := by
+  cases o <;> simp [objEq, isNoneTy] at *
+
+/-- a member of `Union[…]` / `X | Y`: `None`, or a supported expression that is not itself a union -/
+theorem member_ok {z : Sp} (ih : supported ptm z = true → ∃ o, ev ptm z = .ok o ∧ Good z o)
+    (h : isNoneLit z = true ∨ (supported ptm z = true ∧ unionLike z = false)) :
+    ∃ o, ev ptm z = .ok o ∧ unionMembers o = [typingArg o] ∧ gtli ptm (typingArg o) = .ok (some (denote z))
+      ∧ isNoneTy (typingArg o) = isNoneLit z := by
+  rcases h with h | h
+  · have := isNoneLit_eq h; subst this
+    exact ⟨.noneV, rfl, rfl, rfl, rfl⟩
+  · obtain ⟨o, hev, g⟩ := ih h.1
+    have hz : isNoneLit z = false := by
+      cases z <;> first | rfl | (simp [supported] at h)
+    exact ⟨o, hev, by rw [typingArg_of_gtli g.gt]; exact unionMembers_of_gtli g.gt (g.nu h.2),
+      by rw [typingArg_of_gtli g.gt]; exact g.gt, by rw [typingArg_of_gtli g.gt, g.nn, hz]⟩
+
+/-- an argument of `AnyOf[…]`: `None`, or a supported expression -/
+theorem item_ok {z : Sp} (ih : supported ptm z = true → ∃ o, ev ptm z = .ok o ∧ Good z o)
+    (h : isNoneLit z = true ∨ supported ptm z = true) :
+    ∃ o, ev ptm z = .ok o ∧ getItem ptm o = .ok (denote z) := by
+  rcases h with h | h
+  · have := isNoneLit_eq h; subst this
+    exact ⟨.noneV, rfl, rfl⟩
+  · obtain ⟨o, hev, g⟩ := ih h
+    exact ⟨o, hev, getItem_of_gtli g.gt⟩
+
 /-- `_or_fields` with a non-field right operand that `get_typing_lib_info` converts -/
 theorem orFields_converted {l r : Obj} {dl dr : FieldDecl} (hl : getItem ptm l = .ok dl)
     (hr : gtli ptm r = .ok (some dr)) (hf : isFieldObj r = false) :
@@ -173,11 +231,12 @@ theorem orFields_converted {l r : Obj} {dl dr : FieldDecl} (hl : getItem ptm l =
   | finst d => simp [isFieldObj] at hf
   | _ => simp [orFields, hl, isFieldObj, orConverted, hr]
 
-theorem isNoneLit_eq {y : Sp} (h : isNoneLit y = true) : y = .noneLit := by
-  cases y <;> simp [isNoneLit] at h ⊢
 
 theorem unionMembers_noneV : unionMembers .noneV = [.noneTy] := rfl
 theorem isFieldObj_noneV : isFieldObj .noneV = false := rfl
+theorem typingObj_noneV : typingObj ptm .noneV = false := rfl
+theorem plainType_noneV : plainType ptm .noneV = false := rfl
+theorem plainRight_noneV : plainRight ptm .noneV = true := rfl
 theorem getItem_noneV : getItem ptm .noneV = .ok .noneF := rfl
 
 /-- Main lemma: a supported spelling evaluates, and the resulting object is consumed as its documented
@@ -295,77 +354,81 @@ theorem ev_good : ∀ s : Sp, supported ptm s = true → ∃ o, ev ptm s = .ok o
   | union x y ihx ihy =>
     intro h
     simp only [supported, Bool.and_eq_true, Bool.not_eq_true', Bool.or_eq_true] at h
-    obtain ⟨⟨⟨hx, hux⟩, hy⟩, hd⟩ := h
-    obtain ⟨ox, hevx, gx⟩ := ihx hx
-    have hmx := unionMembers_of_gtli gx.gt (gx.nu hux)
-    rcases hy with hy | hy
-    · have := isNoneLit_eq hy; subst this
-      refine ⟨.tUnion [ox, .noneTy], by simp [ev, hevx, hmx, unionMembers_noneV, mkUnion_pair (objEq_noneTy gx.nn)], ?_⟩
-      exact good_tUnion (mb := .noneF) _ gx.gt (by simp [gtli]) (by simp [denote]) rfl rfl
-    · obtain ⟨oy, hevy, gy⟩ := ihy hy.1
-      have hmy := unionMembers_of_gtli gy.gt (gy.nu hy.2)
-      have hne : objEq ox oy = false := by
-        simp [distinctObjs, hevx, hevy, typingArg_of_gtli gx.gt, typingArg_of_gtli gy.gt] at hd
-        exact hd
-      refine ⟨.tUnion [ox, oy], by simp [ev, hevx, hevy, hmx, hmy, mkUnion_pair hne], ?_⟩
-      exact good_tUnion _ gx.gt gy.gt rfl rfl rfl
+    obtain ⟨⟨hx, hy⟩, hd⟩ := h
+    obtain ⟨ox, hevx, hmx, hgx, _⟩ := member_ok ihx hx
+    obtain ⟨oy, hevy, hmy, hgy, _⟩ := member_ok ihy hy
+    have hne : objEq (typingArg ox) (typingArg oy) = false := by
+      simpa [distinctObjs, hevx, hevy] using hd
+    refine ⟨.tUnion [typingArg ox, typingArg oy], by simp [ev, hevx, hevy, hmx, hmy, mkUnion_pair hne], ?_⟩
+    exact good_tUnion _ hgx hgy rfl rfl rfl
   | anyOf x y ihx ihy =>
     intro h
     simp only [supported, Bool.and_eq_true, Bool.or_eq_true] at h
-    obtain ⟨ox, hevx, gx⟩ := ihx h.1
-    rcases h.2 with hy | hy
-    · have := isNoneLit_eq hy; subst this
-      exact ⟨.finst (.anyOf [denote x, .noneF]), by simp [ev, hevx, getItem_of_gtli gx.gt, getItem_noneV],
-        good_finst _ _ (by simp [denote]) rfl⟩
-    · obtain ⟨oy, hevy, gy⟩ := ihy hy
-      exact ⟨.finst (.anyOf [denote x, denote y]),
-        by simp [ev, hevx, hevy, getItem_of_gtli gx.gt, getItem_of_gtli gy.gt], good_finst _ _ rfl rfl⟩
+    obtain ⟨ox, hevx, hix⟩ := item_ok ihx h.1
+    obtain ⟨oy, hevy, hiy⟩ := item_ok ihy h.2
+    exact ⟨.finst (.anyOf [denote x, denote y]), by simp [ev, hevx, hevy, hix, hiy], good_finst _ _ rfl rfl⟩
   | pipe x y ihx ihy =>
     intro h
-    simp only [supported, Bool.and_eq_true] at h
-    obtain ⟨hx, hrest⟩ := h
-    obtain ⟨ox, hevx, gx⟩ := ihx hx
-    by_cases hfx : isFieldExpr x = true
-    · -- `Field | …`: `_or_fields`
-      simp only [hfx, if_true, Bool.or_eq_true] at hrest
-      have hfo : isFieldObj ox = true := by rw [gx.fo]; exact hfx
-      rcases hrest with hy | hy
-      · have := isNoneLit_eq hy; subst this
-        exact ⟨.finst (.anyOf [denote x, .noneF]),
-          by simp [ev, hevx, pipeObj, hfo, orFields, isFieldObj_noneV, getItem_of_gtli gx.gt],
-          good_finst _ _ (by simp [denote]) (by simp [isFieldExpr, hfx])⟩
-      · obtain ⟨oy, hevy, gy⟩ := ihy hy
-        refine ⟨.finst (.anyOf [denote x, denote y]), ?_, good_finst _ _ rfl (by simp [isFieldExpr, hfx])⟩
-        by_cases hfoy : isFieldObj oy = true
-        · simp [ev, hevx, hevy, pipeObj, hfo, orFields, hfoy, getItem_of_gtli gx.gt, getItem_of_gtli gy.gt]
-        · have hfoy' : isFieldObj oy = false := by simpa using hfoy
-          simp [ev, hevx, hevy, pipeObj, hfo, orFields_converted (getItem_of_gtli gx.gt) gy.gt hfoy']
-    · -- `int | str`: a `types.UnionType`, which `get_typing_lib_info` treats like `typing.Union`
-      have hfx' : isFieldExpr x = false := by simpa using hfx
-      simp only [hfx', Bool.false_eq_true, if_false, Bool.and_eq_true, Bool.or_eq_true, Bool.not_eq_true'] at hrest
-      obtain ⟨⟨hpx, hy⟩, hd⟩ := hrest
-      have hfo : isFieldObj ox = false := by rw [gx.fo]; exact hfx'
-      have hptx := plainSp_plainType hpx hevx
-      have hux : unionLike x = false := by cases x <;> simp [plainSp] at hpx <;> rfl
-      have hmx := unionMembers_of_gtli gx.gt (gx.nu hux)
-      have hk : kwAllowed (Sp.pipe x y) = false := rfl
-      rcases hy with hy | hy
-      · have := isNoneLit_eq hy; subst this
-        refine ⟨.uType [ox, .noneTy],
-          by simp [ev, hevx, pipeObj, hfo, hptx, plainRight, hmx, unionMembers_noneV,
-            mkUType_pair (objEq_noneTy gx.nn)], ?_⟩
-        exact good_uType (mb := .noneF) _ gx.gt (by simp [gtli]) (by simp [denote]) (by simp [isFieldExpr, hfx'])
-          (by simp [unionLike, hfx']) hk
-      · obtain ⟨⟨hsy, hpy⟩, huy⟩ := hy
-        obtain ⟨oy, hevy, gy⟩ := ihy hsy
-        have hpry := plainRightSp_plainRight hpy hevy
-        have hmy := unionMembers_of_gtli gy.gt (gy.nu huy)
-        have hne : objEq ox oy = false := by
-          simp [distinctObjs, hevx, hevy, typingArg_of_gtli gx.gt, typingArg_of_gtli gy.gt] at hd
-          exact hd
-        refine ⟨.uType [ox, oy],
-          by simp [ev, hevx, hevy, pipeObj, hfo, hptx, hpry, hmx, hmy, mkUType_pair hne], ?_⟩
-        exact good_uType _ gx.gt gy.gt rfl (by simp [isFieldExpr, hfx']) (by simp [unionLike, hfx']) hk
+    have hk : kwAllowed (Sp.pipe x y) = false := rfl
+    by_cases hnx : isNoneLit x = true
+    · -- `None | int`, `None | Integer`: a `types.UnionType` whose first member is `NoneType`
+      have := isNoneLit_eq hnx; subst this
+      simp only [supported, isNoneLit, if_true, Bool.and_eq_true, Bool.not_eq_true'] at h
+      obtain ⟨⟨hsy, hpy⟩, huy⟩ := h
+      obtain ⟨oy, hevy, gy⟩ := ihy hsy
+      obtain ⟨hty, hpf⟩ := plainRightSp_kind hpy hevy
+      have hmy := unionMembers_of_gtli gy.gt (gy.nu huy)
+      refine ⟨.uType [.noneTy, oy], ?_, ?_⟩
+      · have hpf' : plainType ptm oy = true ∨ isFclsObj oy = true := by simpa using hpf
+        simp [ev, hevy, pipeObj, isFieldObj_noneV, typingObj_noneV, plainType_noneV, hty, hpf',
+          unionMembers_noneV, hmy, mkUType_pair (objEq_noneTy_left gy.nn)]
+      · exact good_uType (ma := .noneF) _ (by simp [gtli]) gy.gt (by simp [denote]) rfl rfl hk
+    · have hnx' : isNoneLit x = false := by simpa using hnx
+      simp only [supported, hnx', Bool.false_eq_true, if_false, Bool.and_eq_true] at h
+      obtain ⟨hx, hrest⟩ := h
+      obtain ⟨ox, hevx, gx⟩ := ihx hx
+      by_cases hfx : isFieldExpr x = true
+      · -- `Field | …`: `_or_fields`
+        simp only [hfx, if_true, Bool.or_eq_true] at hrest
+        have hfo : isFieldObj ox = true := by rw [gx.fo]; exact hfx
+        rcases hrest with hy | hy
+        · have := isNoneLit_eq hy; subst this
+          exact ⟨.finst (.anyOf [denote x, .noneF]),
+            by simp [ev, hevx, pipeObj, hfo, orFields, isFieldObj_noneV, getItem_of_gtli gx.gt],
+            good_finst _ _ (by simp [denote]) (by simp [isFieldExpr, hfx])⟩
+        · obtain ⟨oy, hevy, gy⟩ := ihy hy
+          refine ⟨.finst (.anyOf [denote x, denote y]), ?_, good_finst _ _ rfl (by simp [isFieldExpr, hfx])⟩
+          by_cases hfoy : isFieldObj oy = true
+          · simp [ev, hevx, hevy, pipeObj, hfo, orFields, hfoy, getItem_of_gtli gx.gt, getItem_of_gtli gy.gt]
+          · have hfoy' : isFieldObj oy = false := by simpa using hfoy
+            simp [ev, hevx, hevy, pipeObj, hfo, orFields_converted (getItem_of_gtli gx.gt) gy.gt hfoy']
+      · -- `int | str`: a `types.UnionType`, which `get_typing_lib_info` treats like `typing.Union`
+        have hfx' : isFieldExpr x = false := by simpa using hfx
+        simp only [hfx', Bool.false_eq_true, if_false, Bool.and_eq_true, Bool.or_eq_true, Bool.not_eq_true'] at hrest
+        obtain ⟨⟨hpx, hy⟩, hd⟩ := hrest
+        have hfo : isFieldObj ox = false := by rw [gx.fo]; exact hfx'
+        have hptx := plainSp_plainType hpx hevx
+        have htx := plainSp_not_typing hpx hevx
+        have hux : unionLike x = false := by cases x <;> simp [plainSp] at hpx <;> rfl
+        have hmx := unionMembers_of_gtli gx.gt (gx.nu hux)
+        rcases hy with hy | hy
+        · have := isNoneLit_eq hy; subst this
+          refine ⟨.uType [ox, .noneTy],
+            by simp [ev, hevx, pipeObj, hfo, htx, hptx, typingObj_noneV, plainRight_noneV, hmx,
+              unionMembers_noneV, mkUType_pair (objEq_noneTy gx.nn)], ?_⟩
+          exact good_uType (mb := .noneF) _ gx.gt (by simp [gtli]) (by simp [denote]) (by simp [isFieldExpr, hfx'])
+            (by simp [unionLike, hfx']) hk
+        · obtain ⟨⟨hsy, hpy⟩, huy⟩ := hy
+          obtain ⟨oy, hevy, gy⟩ := ihy hsy
+          have hpry := plainRightSp_plainRight hpy hevy
+          have hty := (plainRightSp_kind hpy hevy).1
+          have hmy := unionMembers_of_gtli gy.gt (gy.nu huy)
+          have hne : objEq ox oy = false := by
+            simp [distinctObjs, hevx, hevy, typingArg_of_gtli gx.gt, typingArg_of_gtli gy.gt] at hd
+            exact hd
+          refine ⟨.uType [ox, oy],
+            by simp [ev, hevx, hevy, pipeObj, hfo, htx, hptx, hty, hpry, hmx, hmy, mkUType_pair hne], ?_⟩
+          exact good_uType _ gx.gt gy.gt rfl (by simp [isFieldExpr, hfx']) (by simp [unionLike, hfx']) hk
 
 theorem sameMeaning_denote {s t : Sp} (h : SameMeaning s t) : denote s = denote t := by
   induction h with
